@@ -1643,7 +1643,7 @@ def world_stream(ctx):
             ctx.bump("world_directed:" + cls)
             if W.wsteps:
                 PENDING.append((700000 + n, W.coq_case(), "world_directed", W))
-    for h in range(1, ctx.n(60, 400) + 1):
+    for h in range(1, ctx.n(90, 400) + 1):
         cls = WORLD_CLASSES[h % len(WORLD_CLASSES)]
         wspec = world_spec(rng, cls, entangled=rng.random() < 0.7)
         ctx.bump("world:" + cls + (":truncating" if wspec["max_bond"] else ""))
